@@ -216,8 +216,15 @@ fn check_matrix(n: usize, rng: &mut Rng, q: &mut Q, rep: &mut Report, with_sets:
 /// extrema on matrices containing infinities: the search must return an entry whenever the matrix has a cell,
 /// and agree with reads.  The model sees an order-isomorphic integer encoding (inf = +-10^12).
 fn extrema_special(q: &mut Q, rep: &mut Report) {
-    let vals = [0.0f64, 1.0, f64::INFINITY, f64::NEG_INFINITY];
-    let enc = |v: f64| -> i64 { if v == f64::INFINITY { 1_000_000_000_000 } else if v == f64::NEG_INFINITY { -1_000_000_000_000 } else { v as i64 } };
+    extrema_over(q, rep, &[0.0f64, 1.0, f64::INFINITY, f64::NEG_INFINITY], &|v: f64| -> i64 { if v == f64::INFINITY { 1_000_000_000_000 } else if v == f64::NEG_INFINITY { -1_000_000_000_000 } else { v as i64 } }, "with-infinite-entries");
+    // neighbouring floats: 0.3 and its two neighbours are three DIFFERENT values, one ulp apart (the model sees their ranks)
+    let (lo, mid, hi) = (f64::from_bits(0.3f64.to_bits() - 1), 0.3f64, f64::from_bits(0.3f64.to_bits() + 1));
+    extrema_over(q, rep, &[lo, mid, hi, 1.0], &move |v: f64| -> i64 { if v == lo { 0 } else if v == mid { 1 } else if v == hi { 2 } else { 3 } }, "with-adjacent-floats");
+    // tiny magnitudes: differences far below machine epsilon in absolute terms
+    extrema_over(q, rep, &[1e-300, 2e-300, 3e-300, 0.0], &|v: f64| -> i64 { (v * 1e300).round() as i64 }, "with-tiny-magnitudes");
+}
+
+fn extrema_over(q: &mut Q, rep: &mut Report, vals: &[f64], enc: &dyn Fn(f64) -> i64, label: &str) {
     for n in 2..=4usize {
         let cells_n = tri(n);
         let total = (vals.len() as u64).pow(cells_n as u32);
@@ -228,7 +235,7 @@ fn extrema_special(q: &mut Q, rep: &mut Report) {
             let m = DistanceMatrix::new(t.clone(), &cells);
             let cmd = format!("mx.new\t{}\t{}", enc_taxa(&t), cells.iter().map(|v| enc(*v).to_string()).collect::<Vec<_>>().join(" "));
             q.push("", cmd.clone(), "ok".into());
-            rep.count("extrema_with_infinities");
+            rep.count(&format!("extrema_{label}"));
             for (name, r) in [("min", m.min()), ("max", m.max())] {
                 let e = match r {
                     None => "ok -".to_string(),
@@ -250,7 +257,7 @@ fn extrema_special(q: &mut Q, rep: &mut Report) {
                     _ => false,
                 };
                 if !ok {
-                    rep.oracle("extremum", &format!("{name}:with-infinite-entries"), &format!("{cmd}\nmx\t{name}"), &format!("{e} but cells {cells:?}"));
+                    rep.oracle("extremum", &format!("{name}:{label}"), &format!("{cmd}\nmx\t{name}"), &format!("{e} but cells {cells:?}"));
                 }
             }
         }
